@@ -258,13 +258,14 @@ def run_cases(tag, imports, case_lines, chunk=400, extra_defs=""):
   files = []
   for k in range(0, len(case_lines), chunk):
     part = case_lines[k : k + chunk]
+    defs = extra_defs if isinstance(extra_defs, str) else "\n".join(extra_defs[k : k + chunk])
     name = f"Corr/cases_{tag}_{k // chunk}.v"
     txt = (
       "From Coq Require Import ZArith List Bool PrimFloat.\n"
       "From VF Require Import Base.Scalar Base.ScalarF Base.Vec Base.Loop Base.CorrF.\n"
       + "".join(f"From VF Require Import {i}.\n" for i in imports)
       + "Import ListNotations.\nLocal Open Scope float_scope.\n"
-      + extra_defs
+      + defs
       + "\nDefinition verdicts : list nat := [\n  "
       + ";\n  ".join(part)
       + "\n].\nEval vm_compute in verdicts.\n"
